@@ -1687,6 +1687,13 @@ class HTTP11ClientProtocol(Protocol):
         try:
             self._parser.dataReceived(bytes)
         except BaseException:
+            if self._state == "TRANSMITTING":
+                # The request is still being written, so the parser's Deferred
+                # is not chained to the one returned by request() yet.  Chain
+                # it now, as _finishResponse_TRANSMITTING does, so that the
+                # failure reaches the caller.
+                self._state = "TRANSMITTING_AFTER_RECEIVING_RESPONSE"
+                self._responseDeferred.chainDeferred(self._finishedRequest)
             self._giveUp(Failure())
 
     def connectionLost(self, reason):
